@@ -105,11 +105,59 @@ def singularCovers (m : Model K) : Bool :=
       m.cfg.channels.all fun c => m.cfg.samples.all fun sm => !declOn m n t sm c || declOn m n t sm' c
     | _ => true
 
+/-- every parameter set occupies a slice of its own size, and every constrained one carries auxiliary data
+(and, if given, widths) of its own size — violated only by wrong-length measurement overrides of a
+luminosity parameter, which construction does not check -/
+def paramsetsOK (m : Model K) : Bool :=
+  m.ps.all fun p =>
+    ((sliceOf m.slices p.name).2 - (sliceOf m.slices p.name).1 == p.n) &&
+    (!p.constrained || ((p.auxdata.getD []).length == p.n))
+
 /-- per-sample clipping does not lift the zero rows of absent samples -/
 def clipSampleNonPos (m : Model K) : Bool :=
   match m.settings.clipSample with
   | none => true
   | some c => !decide ((0 : K) < c)
 
+end
+end Pyhf
+
+namespace Pyhf
+section
+variable {K : Type} [Add K] [Sub K] [Mul K] [Div K] [Neg K] [OfNat K 0] [OfNat K 1]
+  [OfScientific K] [LT K] [LE K] [DecidableLT K] [DecidableLE K] [BEq K]
+
+namespace D
+
+/-- the constraint terms of one constrained parameter set whose auxiliary data start at position `start`:
+one term per component `i`, pairing `aux[start + i]` with component `i` of the parameter named `p.name` -/
+def paramsetTerms (m : Model K) (par : Nat → K) (aux : List K) (p : Paramset K) (start : Nat) : List (CKind × K × K × K) :=
+  match p.ptype with
+  | .normal =>
+    (List.range p.n).map fun i =>
+      (CKind.normal, aux.getD (start + i) 0, byName m par p.name i, (p.sigmas.getD (List.replicate p.n 1)).getD i 1)
+  | .poisson =>
+    (List.range p.n).map fun i =>
+      (CKind.poisson, aux.getD (start + i) 0, byName m par p.name i * p.factors.getD i 1, (1 : K))
+  | .unconstrained => []
+
+/-- constraint terms in the order of `config.auxdata_order`, positions by running sum of the sizes -/
+def constraintTemplate (m : Model K) (par : Nat → K) (aux : List K) : List (CKind × K × K × K) :=
+  let rec go : List (Paramset K) → Nat → List (CKind × K × K × K)
+    | [], _ => []
+    | p :: rest, start => paramsetTerms m par aux p start ++ go rest (start + p.n)
+  go (m.ps.filter (·.constrained)) 0
+
+/-- **The HistFactory template**: one Poisson term per bin (observed count vs. expected rate) followed by
+exactly one constraint term per constrained parameter component -/
+def template (P : Prim K) (m : Model K) (par : Nat → K) (data : List K) : List (CKind × K × K × K) :=
+  let main := data.take m.cfg.nmain
+  let aux := data.drop m.cfg.nmain
+  ((main.zip (D.expected P m par)).map fun (d, r) => (CKind.poisson, d, r, (1 : K))) ++ constraintTemplate m par aux
+
+def logpdf (P : Prim K) (L : LogPrim K) (m : Model K) (par : Nat → K) (data : List K) : K :=
+  sumK ((template P m par data).map (termLog L))
+
+end D
 end
 end Pyhf
